@@ -70,7 +70,7 @@ fn op_on_claimed(ctx: &mut Ctx, claimant: &dyn ScopeOps, orig: &dyn ScopeOps) {
         1 => {
             let e = *ctx.rng.pick(&Elem::SLICEABLE);
             let n = ctx.rng.below(20) as usize + 1;
-            let r = orig.x_alloc_slice(e, n, false);
+            let r = orig.x_alloc_slice(e, n, 0);
             ctx.count("on_claimed alloc_slice");
             if r.is_ok() {
                 ctx.oracle("C14", "try_allocate_slice through the claimed handle succeeded".into());
@@ -408,14 +408,20 @@ fn op_shrink_slice(ctx: &mut Ctx, sc: &mut dyn ScopeOps, b: Blk) {
 }
 
 fn op_typed(ctx: &mut Ctx, sc: &mut dyn ScopeOps) {
-    let dy = ctx.rng.chance(1, 4);
+    // entry point: try_ method, trait object, or (only when no base-allocator failure can occur) the panicking twin
+    let mode: u8 = match ctx.rng.below(8) {
+        0 | 1 => 1,
+        2 | 3 if !ctx.fail_injected => 2,
+        _ => 0,
+    };
+    let dy = mode == 1;
     match ctx.rng.below(3) {
         0 => {
             let rem = remaining_of(sc);
             let l = gen_layout(ctx, rem);
             let text = format!("alloc_layout {} {} 0 0 0", l.size(), l.align());
             ctx.count("alloc_layout");
-            match sc.x_alloc_layout(l, dy) {
+            match sc.x_alloc_layout(l, mode) {
                 Ok(ptr) => {
                     check_new_block(ctx, &text, ptr, l.size(), l);
                     let id = ctx.add_block(ptr, l.size(), l.align(), Vec::new(), None);
@@ -432,7 +438,7 @@ fn op_typed(ctx: &mut Ctx, sc: &mut dyn ScopeOps) {
             // the trait-object path has no type knowledge: it carries no hints
             let text = if dy { format!("alloc_layout {} {} 0 0 0", l.size(), l.align()) } else { format!("alloc_layout {} {} 1 1 1", l.size(), l.align()) };
             ctx.count("alloc_sized");
-            match sc.x_alloc_sized(e, dy) {
+            match sc.x_alloc_sized(e, mode) {
                 Ok(ptr) => {
                     check_new_block(ctx, &text, ptr, l.size(), l);
                     let id = ctx.add_block(ptr, l.size(), l.align(), Vec::new(), None);
@@ -451,7 +457,7 @@ fn op_typed(ctx: &mut Ctx, sc: &mut dyn ScopeOps) {
             let l = Layout::from_size_align(el.size() * n, el.align()).unwrap();
             let text = if dy { format!("alloc_layout {} {} 0 0 0", l.size(), l.align()) } else { format!("alloc_layout {} {} 1 0 1", l.size(), l.align()) };
             ctx.count("alloc_slice");
-            match sc.x_alloc_slice(e, n, dy) {
+            match sc.x_alloc_slice(e, n, mode) {
                 Ok(ptr) => {
                     check_new_block(ctx, &text, ptr, l.size(), l);
                     let id = ctx.add_block(ptr, l.size(), l.align(), Vec::new(), Some(e));
@@ -486,7 +492,11 @@ fn op_reserve(ctx: &mut Ctx, sc: &mut dyn ScopeOps) {
                 ctx.oracle("C05", format!("`{text}` succeeded but remaining() is {}", d.typed.remaining));
             }
             if !dy && before.cur.is_some() && (d.cur != before.cur || cur_pos(&d, ctx.up) != cur_pos(&before, ctx.up)) {
-                ctx.oracle("C10", format!("`{text}` moved the bump position"));
+                ctx.oracle("C17", format!("`{text}` (typed reserve) moved the bump position"));
+            }
+            if dy && before.cur.is_some() && (d.cur != before.cur || d.typed.allocated != before.typed.allocated) {
+                // the typed `reserve` never changes the current chunk / allocated(): the two entry points differ
+                ctx.oracle("C17", format!("RESERVE-DYN `{text}` through dyn BumpAllocatorCore changed the current chunk {:?} -> {:?} / allocated {} -> {} (the typed reserve leaves both unchanged)", before.cur, d.cur, before.typed.allocated, d.typed.allocated));
             }
         }
         Err(()) => {
